@@ -88,7 +88,7 @@ class MethodSpec:
     pass
 
 
-def gen_method(rng, nslots=None, misaligned=False, allow_new=True, max_tries=4, plain_only_simple=False, wild_targets=True):
+def gen_method(rng, nslots=None, misaligned=False, allow_new=True, max_tries=5, plain_only_simple=False, wild_targets=True):
     n = nslots or rng.choice([3, 5, 8, 12, 20, 40])
     slots = []  # dict(kind=..., ...)
     for i in range(n):
@@ -249,7 +249,7 @@ def gen_method(rng, nslots=None, misaligned=False, allow_new=True, max_tries=4, 
     if n >= 2 and ntry:
         cuts = sorted(rng.sample(range(0, n + 1), min(2 * ntry, n + 1)))
         share_key = 0
-        prev_handlers = None
+        earlier = []  # handler lists of ALL earlier tries: a later try may share any of them (H0, H1, H0 patterns, not only adjacent ones)
         for a, b in zip(cuts[0::2], cuts[1::2]):
             if a == b:
                 continue
@@ -258,13 +258,15 @@ def gen_method(rng, nslots=None, misaligned=False, allow_new=True, max_tries=4, 
             nh = rng.choice([0, 1, 1, 2, 3])
             hs = [(rng.choice(EXC_TYPES), off[rng.randrange(n)]) for _ in range(nh)]
             ca = off[rng.randrange(n)] if (nh == 0 or rng.random() < 0.4) else None
+            if nh == 0 and rng.random() < 0.3:
+                ca = 0  # catch-all handler at the very first instruction
             share = None
-            if prev_handlers is not None and rng.random() < 0.3:
-                hs, ca, share = prev_handlers
+            if earlier and rng.random() < 0.4:
+                hs, ca, share = rng.choice(earlier)
             else:
                 share = share_key
                 share_key += 1
-            prev_handlers = (hs, ca, share)
+            earlier.append((hs, ca, share))
             tries.append(W.Try(start, end - start, hs, ca, share=share))
             truth_tries.append((start * 2, end * 2 - 1, [(t, a2 * 2) for t, a2 in hs] + ([("Ljava/lang/Throwable;", ca * 2)] if ca is not None else [])))
     # ---- ground truth
